@@ -212,6 +212,8 @@ pub fn search_with_timeout_and_memory<M: Mode>(
         #[cfg(selen_verif)]
         let is_suitable = is_suitable && !crate::verif_hooks::root_lp_disabled();
         if is_suitable && lp_has_objective {
+            #[cfg(selen_verif)]
+            crate::verif_hooks::note_root_lp_ran();
             if LP_DEBUG {
                 eprintln!("LP: System is suitable for LP with objective, solving...");
             }
